@@ -149,6 +149,8 @@ type genCtx struct {
 	lateralPc int    // > 0: probability that a joined source is a LATERAL subquery (default 16)
 	cteName   string // name of the next CTE (shadowing), else c<n>
 	deepJoins bool   // nested queries keep joining (2-3 sources) instead of reading mostly one source
+	cteWeight int    // > 0: weight of a CTE reference among the base sources that are not the first one (default 18)
+	avoidEdge string // the traversal form of WITH RECURSIVE does not use this table as its edge table
 }
 
 func (g *genCtx) setHint(view, name string, vs []val.Val) {
@@ -563,6 +565,9 @@ func (g *genCtx) base(depth int, preferCTE bool) (*ref.SelSource, []ref.SelCol, 
 	wCTE, wSub := 0, 0
 	if len(g.ctes) > 0 {
 		wCTE = 18
+		if g.cteWeight > 0 {
+			wCTE = g.cteWeight
+		}
 		if preferCTE {
 			wCTE = 150
 		}
@@ -1009,6 +1014,15 @@ func (g *genCtx) cte() {
 	}
 	intLit := func(i int) *ref.SelExpr { return litE(val.Int(int64(i))) }
 	small := g.smallTables()
+	if g.avoidEdge != "" {
+		var keep []ref.SelTable
+		for _, tb := range small {
+			if tb.Name != g.avoidEdge {
+				keep = append(keep, tb)
+			}
+		}
+		small = keep
+	}
 	kind := fw.Weighted(g.t, "cteKind", []int{50, 28, 22})
 	if kind == 2 && len(small) == 0 {
 		kind = 1
